@@ -163,6 +163,20 @@ def keys_initialised_from(m, cls, start_name):
 
 
 def iv3_cache_keys(m, run, classes, rule='IV3.cache-key-init'):
+    """every cache key a class reads exists, empty, on a new object and on a deep copy: decided by interpreting the constructors and the
+    __deepcopy__ chain of every class (CK3); the rule that reads which constant keys the init / copy paths assign corroborates"""
+    from . import skel_drivers as _sd
+    n0 = len(run.obs)
+    try:
+        _sd.ck3(m, run, classes, lambda c: cache_keys_read(m, c))
+    except AnalysisError as ex:
+        run.error(str(ex))
+    ok = len(run.obs) > n0 and all(o.ok for o in run.obs[n0:])
+    with run.corroborating(ok, 'CK3', rules=(rule,)):
+        _iv3_cache_keys_syntactic(m, run, classes, rule)
+
+
+def _iv3_cache_keys_syntactic(m, run, classes, rule):
     for cls in classes:
         keys = cache_keys_read(m, cls)
         if not keys:
